@@ -343,6 +343,8 @@ func (i *interpreter) vpOpt(name string, v int) {
 		i.p.preempt = v
 	case "timers":
 		i.sched.timerBudget = v
+	case "timed":
+		i.sched.timed = v != 0
 	case "timestep":
 		i.p.timeStep = v
 	case "clock":
